@@ -78,6 +78,11 @@ impl Spawner for PoolSpawner {
         // Try and add sources to our pool
         while self.current_sources.len() < self.config.count {
             if let Some(addr) = self.known_ips.pop() {
+                // the known ips can contain the same address more than once (duplicates in
+                // or across DNS answers), never create a second source for an address
+                if self.current_sources.iter().any(|p| p.addr == addr) {
+                    continue;
+                }
                 let id = ClockId::new();
                 self.current_sources.push(PoolSource { id, addr });
                 let action = SpawnAction::create_ntp(
